@@ -4,12 +4,14 @@ go 1.22
 
 require (
 	github.com/anishathalye/porcupine v1.3.0
-	github.com/goose-lang/goose v0.0.0
+	github.com/goose-lang/goose v0.6.1
 )
 
 require (
 	github.com/goose-lang/primitive v0.1.0 // indirect
+	github.com/goose-lang/std v0.3.2 // indirect
 	github.com/pkg/errors v0.9.1 // indirect
+	github.com/tchajed/marshal v0.6.1 // indirect
 	golang.org/x/sys v0.22.0 // indirect
 )
 
